@@ -81,11 +81,13 @@ fn main() {
             let w: u64 = args[5].parse().unwrap_or(0);
             let nw: u64 = args[6].parse().unwrap_or(1);
             let budget: u64 = args[7].parse().unwrap_or(60);
-            driver::worker_main(c, tier, seed, w, nw, budget)
+            let variant = args.get(8).map(|s| s.as_str()).unwrap_or("std");
+            driver::worker_main(c, tier, seed, w, nw, budget, variant)
         }
         Some("run") => {
             // run <id> <tier> <section> <index> [trace]
             let c = driver::find(&args[2]).expect("check");
+            driver::apply_variant(&driver::current_variant());
             let tier = Tier::parse(&args[3]).unwrap_or(Tier::Quick);
             let section: u32 = args[4].parse().unwrap();
             let index: u64 = args[5].parse().unwrap();
@@ -111,6 +113,18 @@ fn main() {
             println!("again: fp={:016x} tape_equal={} evals={} sim_ms={}", ex2.ctx.fp.0, ex2.tape == ex.tape, ex2.ctx.evaluations, ex2.ctx.sim_ms);
             println!("sample={}", ex.ctx.sample.map(|s| s.to_string()).unwrap_or_default());
             0
+        }
+        Some("report") => {
+            // report <id> <tier> <section> <index> <seed> <signature> <variant> <replay_dir>
+            if args.len() < 10 {
+                std::process::exit(usage());
+            }
+            let c = match driver::find(&args[2]) {
+                Some(c) => c,
+                None => std::process::exit(2),
+            };
+            let tier = Tier::parse(&args[3]).unwrap_or(Tier::Quick);
+            driver::report_main(c, tier, args[4].parse().unwrap_or(0), args[5].parse().unwrap_or(0), args[6].parse().unwrap_or(0), &args[7], &args[8], &args[9])
         }
         Some("replay") => match args.get(2) {
             Some(f) => driver::replay_main(f),
